@@ -228,6 +228,12 @@ pub struct Scn {
     /// the transparency rules do not apply to such a run)
     #[serde(default)]
     pub dup_keys: bool,
+    /// requests during whose inner call the innermost service sends another request (id 500+i,
+    /// a key of its own) back through the whole stack from inside its `call()` and awaits it
+    /// before it goes on. Only where that cannot be a deadlock of the caller's own making (no
+    /// Buffer / ConcurrencyLimit underneath, no queueing configuration) and readiness is plain
+    #[serde(default)]
+    pub inner_reentrant: Vec<u32>,
     /// per request: (start_ms, outcome script for the inner calls of that request)
     pub reqs: Vec<(u64, Vec<Behaviour>)>,
     pub knobs: SchedKnobs,
@@ -245,7 +251,7 @@ pub fn gen(rng: &mut Rng) -> Scn {
     let n = rng.range(1, 8) as usize;
     let sequential = stack.contains(&L::Coalesce) || stack.contains(&L::Cache) || rng.chance(1, 2);
     let mut t = 0u64;
-    let reqs = (0..n)
+    let reqs: Vec<(u64, Vec<Behaviour>)> = (0..n)
         .map(|_| {
             let len = if triggering { rng.range(1, 3) } else { 1 } as usize;
             let script = (0..len)
@@ -286,7 +292,12 @@ pub fn gen(rng: &mut Rng) -> Scn {
     let reentrant = mode == 3 && !triggering && rng.chance(1, 3);
     let dup_keys = reentrant && stack.contains(&L::Cache);
     let blocking = mode == 3 && !triggering && !pressure && !reentrant && rng.chance(1, 3);
-    Scn { stack, mode, triggering, ready_script, pressure, zero_backoff, clone_warmup_ms, primed_template, alt, reentrant, blocking, dup_keys, reqs, knobs }
+    let inner_reentrant = if (mode == 0 || mode == 3) && !triggering && !pressure && !dup_keys && ready_script.is_empty() && clone_warmup_ms == 0 && !primed_template && rng.chance(1, 5) {
+        (0..rng.range(1, 2)).map(|_| rng.below(reqs.len() as u64) as u32).collect()
+    } else {
+        vec![]
+    };
+    Scn { stack, mode, triggering, ready_script, pressure, zero_backoff, clone_warmup_ms, primed_template, alt, reentrant, blocking, dup_keys, inner_reentrant, reqs, knobs }
 }
 
 pub fn valid(s: &Scn) -> bool {
@@ -308,6 +319,8 @@ pub fn valid(s: &Scn) -> bool {
         && (!s.reentrant || (s.mode == 3 && !s.triggering))
         && (!s.dup_keys || s.reentrant)
         && (!s.blocking || (s.mode == 3 && !s.triggering && !s.pressure && !s.reentrant))
+        && (s.inner_reentrant.is_empty()
+            || ((s.mode == 0 || s.mode == 3) && !s.triggering && !s.pressure && !s.dup_keys && s.ready_script.is_empty() && s.clone_warmup_ms == 0 && !s.primed_template && s.inner_reentrant.len() <= 3 && s.inner_reentrant.iter().all(|i| (*i as usize) < s.reqs.len())))
         && s.knobs.jumps.is_empty()
 }
 
@@ -629,6 +642,31 @@ fn run_once(s: &Scn, chooser: &mut Chooser, rt_seed: u64, listeners: u8) -> SimO
             }
             svc = wrap(*kind, pos, scn.triggering, scn.pressure, scn.zero_backoff, scn.alt, listeners, svc);
         }
+        if !scn.inner_reentrant.is_empty() {
+            world::with(|w| {
+                for i in &scn.inner_reentrant {
+                    w.script.nested.insert((0, *i), Req { id: 500 + *i, key: 5000 + *i });
+                    w.script.by_req.insert((0, 500 + *i), vec![Behaviour { lat_ms: 2, out: Outcome::Ok, yields: 0 }]);
+                }
+            });
+            let proto = svc.clone();
+            crate::inner::NESTED.with(|nst| {
+                *nst.borrow_mut() = Some(std::rc::Rc::new(move |r: Req| {
+                    let mut s = proto.clone();
+                    let wk = futures::task::noop_waker();
+                    match s.poll_ready(&mut Context::from_waker(&wk)) {
+                        Poll::Ready(Ok(())) => {
+                            let f = s.call(r);
+                            Some(Box::pin(async move {
+                                let _ = f.await;
+                                drop(s);
+                            }) as crate::inner::NestedFut)
+                        }
+                        _ => None,
+                    }
+                }))
+            });
+        }
         REENTER.with(|r| *r.borrow_mut() = if listeners == 3 { Some(svc.clone()) } else { None });
         REENTER_N.with(|n| n.set(0));
         REENTER_DEPTH.with(|d| d.set(0));
@@ -679,6 +717,7 @@ fn run_once(s: &Scn, chooser: &mut Chooser, rt_seed: u64, listeners: u8) -> SimO
     let mut idle = || {};
     let rep = run_sim(cfg, chooser, setup, Hooks { step: &mut step, idle: &mut idle });
     REENTER.with(|r| *r.borrow_mut() = None);
+    crate::inner::NESTED.with(|n| *n.borrow_mut() = None);
     let log = world::with(|w| std::mem::take(&mut w.log));
     let w = world::take();
     SimOut { rep, log, world: w }
@@ -958,7 +997,7 @@ impl Prop for C20 {
         }
     }
     fn nontrivial_rule(&self) -> &'static str {
-        "scenario = one of the 13 middleware (15 variants incl. breaker-with-fallback and keep-running time limiter) alone, or one of 19 stacks of the composition guide, each layer in its non-triggering configuration (retry / hedge / reconnect also in a retrying configuration), 1-8 requests with unique payloads and ok/error outcomes; the innermost service is the strict contract-checking stub (scripted pending / failing readiness), or tower's Buffer, or tower's ConcurrencyLimit; transparent probes between layers attribute readiness violations to the calling layer; mode 3 runs the same scenario twice on the same schedule, once with a panicking listener registered before a counting listener on every hook. Non-trivial: all runs except differential runs in which no listener fired. Distinct = distinct event-log digest."
+        "scenario = one of the 13 middleware (15 variants incl. breaker-with-fallback and keep-running time limiter) alone, or one of 19 stacks of the composition guide, each layer in its non-triggering configuration (retry / hedge / reconnect also in a retrying configuration), 1-8 requests with unique payloads and ok/error outcomes; the innermost service is the strict contract-checking stub (scripted pending / failing readiness), or tower's Buffer, or tower's ConcurrencyLimit; transparent probes between layers attribute readiness violations to the calling layer; mode 3 runs the same scenario twice on the same schedule, once with a panicking listener (or one that calls back into the service, or one that blocks the thread for 7 ms) registered before a counting listener on every hook. Non-trivial: all runs except differential runs in which no listener fired. Distinct = distinct event-log digest."
     }
     fn real_components(&self) -> Vec<&'static str> {
         vec!["all 15 tower-resilience crates through their layers/builders", "tower Buffer, ConcurrencyLimit, BoxCloneService, MapErr, ServiceExt::ready", "tower-resilience-core EventListeners (panic isolation)"]
